@@ -1,6 +1,6 @@
 (* C09 runner: decodes a case (configuration, API calls, recorded/scripted answers of the SSL object and of the wrapped
    transport), runs the model of Conc/TlsEof.v, encodes every action and every reported result. *)
-From EN Require Import Lib.Bytes Lib.Sx Conc.TlsBase Conc.TlsPump Conc.TlsEof Gen.ParamsC09.
+From EN Require Import Lib.Bytes Lib.Sx Conc.TlsBase Conc.TlsPump Conc.TlsEof Gen.ParamsC09 Gen.ParamsC08.
 Open Scope Z_scope.
 
 Definition zeros (n : nat) : bytes := repeat 0%N n.
@@ -99,7 +99,7 @@ Definition run (x : sx) : sx :=
   | L (A 0 :: A std :: L ops :: L answers :: _) =>
       do ops' <- map_opt dec_op ops;
       do ans' <- map_opt dec_ans answers;
-      let '(ob, rest) := run_ops (Z.eqb std 1) ops' tstate0 ans' in
+      let '(ob, rest) := run_ops tls_flags (Z.eqb std 1) ops' tstate0 ans' in
       L [L (map enc_obs ob); of_nat (length rest)]
   | L (A 1 :: A std :: L ops :: L answers :: A raw :: A log_waits :: _) =>
       do ops' <- map_opt dec_op ops;
@@ -123,7 +123,7 @@ Definition run (x : sx) : sx :=
   | L (A 4 :: A std :: L ops :: L answers :: A which :: _) =>
       do ops' <- map_opt dec_op ops;
       do ans' <- map_opt dec_ans answers;
-      let '(ob, rest) := run_ops (Z.eqb std 1) ops' tstate0 ans' in
+      let '(ob, rest) := run_ops tls_flags (Z.eqb std 1) ops' tstate0 ans' in
       let rs := filter (fun o => match o with ORes _ => true | _ => false end) ob in
       let reduce (o : obs) := match o with
                               | ORes (Ret (S _)) => L [A 1; A 0; A 1]
